@@ -40,6 +40,8 @@ fn main() {
         "c20-child" => vmc::concur::child(args[3].parse().unwrap(), tier, args[4].parse().unwrap(), args[5].parse().unwrap()),
         #[cfg(not(vls_verif))]
         "c20" | "c20-child" => machinery_failure("C20 needs the --cfg vls_verif build"),
+        "c04" => vmc::c04::main(tier),
+        "c05" => vmc::c05::main(tier),
         "c17" => vmc::macenum::main(tier),
         "c18" => vmc::keysrel::main(tier),
         x if x.starts_with("dump-") => vmc::props::dump(&x[5..], tier),
